@@ -274,6 +274,12 @@ def effectAllowed (e : String × String × String) : Bool :=
   (e.2.1 == "dict-key-write" && e.1 == "EstimateSensitivityMapModule.forward" && e.2.2 == "sensitivity_map") ||
   (e.2.1 == "return-count" && e.2.2 == "1")
 
+/-- an enum-valued option may only be compared with `==` / `!=` (case-insensitive against every accepted string form);
+`is`, `in <set/dict>`, `match`, hashed literals and look-ups distinguish a string in another case from the member.  A key
+option (`kspace_key`) may in addition be used as a dictionary key, which is what it is. -/
+def enumCompareOk (r : String × String × String) : Bool :=
+  r.2.2 == "==" || r.2.2 == "!=" || (r.2.2 == "subscript-key" && r.2.1 == "kspace_key")
+
 /-- forwarding rows `(builder, constructor keyword, expression)` required of every place that constructs the module -/
 def forwardingRequired : List (String × String) :=
   [("kspace_key", "KspaceKey.KSPACE"), ("backward_operator", "backward_operator"),
